@@ -69,6 +69,7 @@ type Out struct {
 	sampled  int
 
 	recycleTicks int
+	kindSamples  map[string]int
 
 	// StuckFlag (set by the worker to &simsched.Stuck) and OnStuck (set per case):
 	// see Watch.
@@ -176,6 +177,22 @@ func (o *Out) SetAdd(set, key string) {
 		o.Sets[set] = m
 	}
 	m[key] = struct{}{}
+}
+
+// SampleKind keeps at most perKind samples of each workload kind (and max in
+// all), so that the evidence shows what the different kinds of cases look like.
+func (o *Out) SampleKind(kind string, v any, perKind, max int) {
+	if o.kindSamples == nil {
+		o.kindSamples = map[string]int{}
+	}
+	if o.kindSamples[kind] >= perKind {
+		return
+	}
+	before := len(o.Samples)
+	o.Sample(v, max)
+	if len(o.Samples) > before {
+		o.kindSamples[kind]++
+	}
 }
 
 func (o *Out) Sample(v any, max int) {
